@@ -1,6 +1,7 @@
 import Secp.Gen.Drivers
 import Secp.Model.Bip32
 import Secp.Proofs.DriversChild
+import Secp.Proofs.DriversAdaptor
 
 /-!
 # `ecckd.FromPublicKey` regenerated = the model
@@ -20,6 +21,15 @@ theorem fromPublicKey_regenerated (x y : Nat) (cc : Bytes) :
   rw [Secp.Proofs.DriversChild.serializeCompressedEcdsa_regenerated]
   by_cases h : cc.length = 32 <;> simp [h, tup, mainnetPub, Secp.Gen.Drivers.pv_BitcoinMainnetPublic]
 
+/-- `ToPublicSecp256k1` regenerated: `ParsePubKey` (the T7-regenerated parser's model) applied to the key's public bytes -/
+theorem toPublicSecp_regenerated (e : ExtKey) :
+    Secp.Gen.Drivers.toPublicSecpGen (tup e) =
+      (match parsePubKey e.pubKeyBytes with | .ok pk => DR.ok pk | .err pe => DR.err pe | .panic => DR.panic) := by
+  unfold Secp.Gen.Drivers.toPublicSecpGen
+  rw [Secp.Proofs.DriversChild.pubKeyBytes_regenerated Secp.Proofs.DriversAdaptor.scalarBaseMult_regenerated]
+  cases parsePubKey e.pubKeyBytes <;> rfl
+
 end Secp.Proofs.FrontFromPub
 
 #print axioms Secp.Proofs.FrontFromPub.fromPublicKey_regenerated
+#print axioms Secp.Proofs.FrontFromPub.toPublicSecp_regenerated
